@@ -90,6 +90,9 @@ def main():
             {"name": "E2", "path": "harness/chan/src/e2.rs", "serves_properties": ["C01", "C02", "C03", "C04", "C06", "C09"], "kind_free_text": E2},
             {"name": "E3", "path": "harness/sched", "serves_properties": ["C01", "C02", "C03", "C04", "C05", "C07", "C09", "C10"], "kind_free_text": E3},
             {"name": "iocx", "path": "harness/iocx", "serves_properties": ["C18"], "kind_free_text": "sequential model-based histories + real-thread programs (proptest)"},
+            {"name": "cachex", "path": "harness/cachex", "serves_properties": ["C11", "C12", "C13", "C14", "C15", "C16", "C17"], "kind_free_text": "deterministic model-based cache histories with a virtual clock, policy contract sequences, loader waves, real-thread programs (proptest)"},
+            {"name": "logx", "path": "harness/logx", "serves_properties": ["C19", "C20"], "kind_free_text": "encoder round trips, roller histories, in-process routing differential, child-process end-to-end scripts (proptest; cargo-fuzz in thorough)"},
+            {"name": "E5", "path": "harness/fuzz", "serves_properties": ["C01", "C06", "C09"], "kind_free_text": "cargo-fuzz / libFuzzer + ASan over the E2 interpreter (thorough tier)"},
         ],
         "checks": checks,
         "not_applicable": [{"property_id": k, "reason": v} for k, v in sorted(pending.items()) if k not in checks_tbl],
